@@ -30,7 +30,7 @@ def _idx(res, kind):
 
 def check(index, ctx):
     A, by_class = _agg.analysis(index)
-    ctx.rule("R1a", "interpreted on a 1-d and a 3-d abstract input, every path of forward raises ValueError before any value of the input is used")
+    ctx.rule("R1a", "interpreted on a 0-d, a 1-d and a 3-d abstract input, every path of forward raises ValueError before any value of the input is used")
     ctx.rule("R1b", "on a 2-d input every returning path passed a finiteness test of the whole matrix before the first use of its values, and the failing side of that test raises ValueError")
     ctx.rule("R1c", "with a per-objective configuration vector of an unrelated length, every returning path passed a two-sided (==/!=) comparison of the row count with that length whose other side raises ValueError")
     ctx.rule("R1d", "every row-minimum configuration (trim_number, n_byzantine, n_selected) guards forward with a comparison of the row count against it that raises ValueError")
@@ -43,7 +43,7 @@ def check(index, ctx):
     for name, runs in sorted(by_class.items()):
         cls = runs[0].cls
         # ---------------------------------------------------------------- R1a: wrong dimensionality
-        for shape, label in ((("R",), "1-d"), (("R", "C", "K"), "3-d")):
+        for shape, label in ((("R",), "1-d"), (("R", "C", "K"), "3-d"), ((), "0-d")):
             for run in runs:
                 if run.obj is None:
                     continue
@@ -105,6 +105,11 @@ def check(index, ctx):
                 ctx.require(v.dtype == "M", "R4", pk if v.dtype == "M" else f"{name}({run.label}).forward dtype", f"returns dtype tag {v.dtype}",
                             f"returned tensor has dtype tag {v.dtype}, not the input's dtype; dtype events: " +
                             "; ".join(f"{e['loc']} {e.get('left')}/{e.get('right')}" for e in _events(r, 'dtype_mix')[:3]), cls.loc())
+                for e in _events(r, "store_cast"):
+                    if e.get("buffer_dtype") == "Cfg" and e.get("value_dtype") != "Cfg":
+                        ctx.violated("R4", f"{name}: {e['function'].split('.')[-1]}: {e['text'][:70]}",
+                                     f"a value of dtype tag {e.get('value_dtype')} is stored into a buffer that has the dtype of a configuration tensor (allocated like it): with an integer or "
+                                     "half-precision preference / weight vector the computed weights are truncated to that dtype before they are converted to the matrix dtype", e["loc"])
                 for e in _events(r, "precision_loss"):
                     ctx.violated("R4", f"{name}: {e['function'].split('.')[-1]}: {e['text']}", e.get("why", "precision loss"), e["loc"])
                 # R5 homogeneity
